@@ -1,7 +1,7 @@
 (* Case runner for C07: decodes harness cases, runs the model of the fetch/combine/diff pipeline
    and of the -top numbers, judges the implementation's observable with the S_Combine checker. *)
 From Coq Require Import QArith Qround Qabs.
-From PV Require Import M_Combine S_Measure S_Combine Gen.Gen_UnitTable.
+From PV Require Import M_Combine M_CombineCli S_Measure S_Combine Gen.Gen_UnitTable.
 Open Scope Z_scope.
 
 Definition uts := unit_types.
@@ -37,9 +37,25 @@ Definition obs_of (r : res profile) : term :=
   | Ok p => let r := of_reports p in TL [TS "ok"; of_merged p; r; r]
   end.
 
-Definition run_with (keep : list Q -> list Z -> bool) (i : term) : term :=
-  let '(db, nm) := in_flags i in
-  obs_of (fetch keep uts db nm (in_srcs i) (in_bases i)).
+(* ---- end-to-end cases (driver.PProf on a command line / an interactive session / the web
+   handlers): element 3 = [kind; positional args; -base values; -diff_base values; names the
+   ObjTool opens as binaries; files (name, profile)].  Elements 1 and 2 then hold what the
+   generator MEANT (every positional non-binary argument is a source): the specification checker
+   reads those, the model reads the command line. ---- *)
+Definition e2e_part (i : term) : term := gn i 3.
+Definition is_e2e (i : term) : bool := match gl (e2e_part i) with [] => false | _ => true end.
+Definition e2e_cli (i : term) : cli :=
+  let e := e2e_part i in
+  {| c_args := gss (gn e 1); c_base := gss (gn e 2); c_diffbase := gss (gn e 3); c_normalize := snd (in_flags i) |}.
+Definition e2e_is_binary (i : term) (n : string) : bool := existsb (String.eqb n) (gss (gn (e2e_part i) 4)).
+Definition e2e_files (i : term) : list (string * profile) :=
+  map (fun t => (gs (gn t 0), profile_of (gn t 1))) (gl (gn (e2e_part i) 5)).
+
+Definition fetch_with (keep : list Q -> list Z -> bool) (i : term) : res profile :=
+  if is_e2e i then cli_fetch keep uts (e2e_is_binary i) (e2e_files i) (e2e_cli i)
+  else let '(db, nm) := in_flags i in fetch keep uts db nm (in_srcs i) (in_bases i).
+
+Definition run_with (keep : list Q -> list Z -> bool) (i : term) : term := obs_of (fetch_with keep i).
 
 Definition run_C07 (i : term) : term := run_with keep_written i.
 
@@ -100,9 +116,6 @@ Definition normalize_near_half (i : term) : bool :=
 Definition skip_cls (i : term) : list Z :=
   (if normalize_near_half i then [901] else []) ++ (if float_out_of_range i then [902] else []).
 
-Definition fetch_with (keep : list Q -> list Z -> bool) (i : term) : res profile :=
-  let '(db, nm) := in_flags i in fetch keep uts db nm (in_srcs i) (in_bases i).
-
 Definition res_eqb (a b : res profile) : bool :=
   match a, b with
   | Ok p, Ok q => term_eqb (of_profile p) (of_profile q)
@@ -131,6 +144,7 @@ Definition observed_of (o : term) : option observed :=
 
 Definition spec_C07 (i o : term) : bool :=
   if skipped i then true
+  else if is_e2e i && match cli_plan (e2e_is_binary i) (e2e_cli i) with Err _ => true | Ok _ => false end then true
   else let '(db, nm) := in_flags i in spec_ok uts db nm (in_srcs i) (in_bases i) (observed_of o).
 
 Definition judge_C07 := judge_all run_C07 eqv_C07 spec_C07 cls_C07 0%Z.
